@@ -407,6 +407,28 @@ def c_fd_id(case, ctx):
     close(tau2, tau, TIGHT * t.scale(qdd_fd, tau), "InverseDynamics(ForwardDynamics(tau)) vs tau")
 
 
+def c_id_trajectory(case, ctx):
+    """The trajectory form of inverse dynamics is the single-sample form applied to every sample: row k of its
+    answer is InverseDynamics of row k of the joint histories with row k of the tip-wrench history."""
+    S, Ml, Gl, n = unpack(case)
+    Q, QD, QDD, FT, g = (np.asarray(case[k], dtype=float) for k in ("Q", "QD", "QDD", "FT", "g"))
+    N = Q.shape[0]
+    ctx.label("n=%d" % n)
+    ctx.label("samples=%d" % N)
+    ctx.nontrivial(n >= 2 and N >= 2 and amax(FT) > 0)
+    m = mr()
+    out = np.asarray(sut(m.InverseDynamicsTrajectory, Q.copy(), QD.copy(), QDD.copy(), g.copy(), FT.copy(), Ml, Gl, S), dtype=float)
+    if out.shape != (N, n):
+        raise Violation("InverseDynamicsTrajectory: shape %s, expected (%d, %d)" % (out.shape, N, n))
+    homes = link_homes(Ml)
+    for k in range(N):
+        one = vec_out(sut(m.InverseDynamics, Q[k].copy(), QD[k].copy(), QDD[k].copy(), g.copy(), FT[k].copy(), Ml, Gl, S), n,
+                      "InverseDynamics")
+        t = Terms(S, Ml, Gl, homes, Q[k], QD[k], g, FT[k])
+        close(out[k], one, TIGHT * t.scale(QDD[k], one),
+              "InverseDynamicsTrajectory row %d of %d vs InverseDynamics of that sample" % (k, N))
+
+
 def c_decomposition(case, ctx):
     S, Ml, Gl, n = unpack(case)
     q, qd, qdd, g, F = (case[k] for k in ("q", "qd", "qdd", "g", "F"))
@@ -751,7 +773,20 @@ def _arm_fd(case, ctx, which):
             out = rig.call(arm.forwardDynamicsE, case, q, qd, tau)
             if not isinstance(out, tuple) or len(out) != 4:
                 raise Violation("forwardDynamicsE: expected (qdd, M, h, ee)")
-            return vec_out(out[0], n, "Arm.forwardDynamicsE")
+            a = vec_out(out[0], n, "Arm.forwardDynamicsE")
+            # the terms it hands back are the decomposition of the torque it was given: tau = M qdd + h + ee with
+            # h = c(q, qd) + g(q) and ee = J^T F_tip
+            Mo = np.asarray(out[1], dtype=float)
+            ho = vec_out(out[2], n, "forwardDynamicsE h")
+            eo = vec_out(out[3], n, "forwardDynamicsE ee")
+            if Mo.shape != (n, n):
+                raise Violation("forwardDynamicsE: M has shape %s" % (Mo.shape,))
+            tt = t.tol_tau(a, tau)
+            close(ho, t.c + t.g, tt, "forwardDynamicsE: returned h vs c(q, qd) + g(q)")
+            close(eo, t.e, tt, "forwardDynamicsE: returned ee vs J^T F_tip")
+            close(Mo @ a + ho + eo, np.asarray(tau, dtype=float).reshape(n), tt,
+                  "forwardDynamicsE: M qdd + h + ee (as returned) vs the torque given")
+            return a
         return vec_out(rig.call(arm.forwardDynamics, case, q, qd, tau), n, "Arm.forwardDynamics")
 
     def idyn(a):
@@ -819,12 +854,25 @@ def vecs(draw, n, maxmag, minmag=0.0):
     return v
 
 
+_LIGHT = G.log_uniform(1e-6, 1e-2)
+
+
+def _inertias(draw, n, light=True):
+    """n positive-definite spatial inertias; in a quarter of the chains the LAST link is a light tool (its inertia
+    scaled by 1e-6..1e-2: a 0.1 kg gripper behind 30 kg links), which makes the mass matrix ill-conditioned (up to
+    ~1e9) while every link inertia stays positive definite."""
+    Gl = np.stack([draw(G.spd_spatial_inertia()) for _ in range(n)])
+    if light and n >= 2 and draw(st.integers(0, 3)) == 0:
+        Gl[-1] = Gl[-1] * draw(_LIGHT)
+    return np.ascontiguousarray(Gl)
+
+
 @st.composite
-def mechanisms(draw, nmin=1, nmax=7):
+def mechanisms(draw, nmin=1, nmax=7, light=True):
     S = draw(G.chains(nmin, nmax, allow_prismatic=False))
     n = S.shape[1]
     Ml = np.stack([draw(G.se3s(maxnorm=1.0)) for _ in range(n + 1)])
-    Gl = np.stack([draw(G.spd_spatial_inertia()) for _ in range(n)])
+    Gl = _inertias(draw, n, light)
     return {"S": S, "M": np.ascontiguousarray(Ml), "G": np.ascontiguousarray(Gl)}
 
 
@@ -847,10 +895,23 @@ def mr_cases(draw, keys=("q", "qd", "qdd", "tau", "g", "F"), nmax=7):
 
 
 @st.composite
+def trajectory_cases(draw):
+    c = draw(mechanisms(1, 7))
+    n = c["S"].shape[1]
+    N = draw(st.integers(1, 9))
+    c["Q"] = np.stack([np.array([draw(joint_values()) for _ in range(n)]) for _ in range(N)])
+    c["QD"] = np.stack([draw(vecs(n, 10.0)) for _ in range(N)])
+    c["QDD"] = np.stack([draw(vecs(n, 10.0)) for _ in range(N)])
+    c["FT"] = np.stack([draw(vecs(6, 100.0)) for _ in range(N)])
+    c["g"] = draw(st.one_of(st.just(np.array([0.0, 0.0, -9.81])), vecs(3, 100.0)))
+    return c
+
+
+@st.composite
 def energy_cases(draw):
     # smaller chains are drawn more often: a case costs 800 ForwardDynamics evaluations of n+3 recursions each
     n = draw(st.sampled_from([1, 2, 2, 3, 3, 3, 4, 4, 5, 6, 7]))
-    c = draw(mechanisms(n, n))
+    c = draw(mechanisms(n, n, light=False))
     n = c["S"].shape[1]
     c["q"] = np.array([draw(joint_values(2.5, tiny=False)) for _ in range(n)])
     c["qd"] = draw(vecs(n, 2.0))
@@ -890,7 +951,7 @@ def arm_cases(draw, need_tau=False):
         n = 6
         c["arm"] = {"kind": "sixr", "base": np.zeros(6), "limits": None}
         c["L"] = None
-        c["G"] = np.ascontiguousarray(np.stack([draw(G.spd_spatial_inertia()) for _ in range(n)])) if kind == "sixr_G" else None
+        c["G"] = _inertias(draw, n) if kind == "sixr_G" else None
     else:
         spec = _snap_tool(draw(A.random_chain_specs(6, 6) if kind == "random6" else A.random_chain_specs(1, 7)))
         spec["base"] = draw(A.poses6(maxnorm=3.0, identity_weight=50, tiny=False))
@@ -898,7 +959,7 @@ def arm_cases(draw, need_tau=False):
         n = A.spec_n(spec)
         c["arm"] = spec
         c["L"] = draw(link_frames(n))
-        c["G"] = np.ascontiguousarray(np.stack([draw(G.spd_spatial_inertia()) for _ in range(n)]))
+        c["G"] = _inertias(draw, n)
         if draw(st.integers(0, 2)) == 0:
             c["L0"] = draw(link_frames(n))
             c["G0"] = np.ascontiguousarray(np.stack([draw(G.spd_spatial_inertia()) for _ in range(n)]))
@@ -917,6 +978,7 @@ def arm_cases(draw, need_tau=False):
 CLAUSES = [
     Clause("mass_matrix_spd_composite", c_mass, mr_cases(keys=()), 300, 16 * 1000),
     Clause("fd_inverts_id", c_fd_id, mr_cases(), 250, 16 * 1000),
+    Clause("id_trajectory_is_id_per_sample", c_id_trajectory, trajectory_cases(), 200, 16 * 600),
     Clause("torque_decomposition", c_decomposition, mr_cases(keys=("qd", "qdd", "g", "F")), 250, 16 * 1000),
     Clause("coriolis_passivity", c_passivity, mr_cases(keys=("qd",)), 160, 16 * 500),
     Clause("velocity_term_is_christoffel", c_christoffel, mr_cases(keys=("qd",)), 120, 16 * 400),
